@@ -260,6 +260,13 @@ def oracle(case, obs):
     rk = obs["readers"]["karyogram"]
     if isinstance(rk, dict) or len(rk) != 2:
         return f"karyogram reader does not accept the file: {rk}"
+    for k2 in (0, 1):
+        # … and what it accepts is what the file says about the first sample: every block, with its label, chromosome and cM end
+        blocks = lines[bounds[k2] + 1 : bounds[k2 + 1]]
+        want = [(b[0], int(b[1]), round(float(b[3]) * 10000)) for b in blocks]
+        got = [(x[0], int(x[1]), x[2]) for x in rk[k2]]
+        if got != want:
+            return f"the karyogram reader sees {got} on strand {k2 + 1} of the first sample, the file says {want}"
     # correspondence with the simulated population (when recorded): file = rendering of the drawn haplotypes
     t = obs["tapes"]
     if t is not None:
